@@ -535,6 +535,15 @@ func (g *bhGenerator) genTx(h *histRun, b *bhBlock, blockIdx, i int) *bhTx {
 			t.S += " stake"
 			t.V2 = pickVal()
 		}
+		if r.Chance(15) {
+			// a grant in several denominations: the further coins vest first (one short period of their own), the
+			// main coin afterwards — so that the part vested at some time may lack the bond denomination
+			t.X = otherCoins(t.F, 1+r.Intn(2))
+			if r.Chance(50) {
+				t.S += " stake"
+				t.V2 = pickVal()
+			}
+		}
 	case "clawback", "convertvest", "liquidate":
 		var vs []int
 		for u := 0; u < bhNU; u++ {
